@@ -643,7 +643,10 @@ def run(ctx):
                 "{100,101,125,150,200,300}, max_collateral_inputs in {1,2,3}, thresholds {0,1,2,5 ADA,amt}, "
                 "cpb in {100,1000,4310,10000}, collateral change address given / same / absent, five fee-parameter "
                 "families plus a 'tight' family whose max transaction is the transaction itself (fee within "
-                "44*margin of max_tx_fee); non-trivial = distinct scenario")
+                "44*margin of max_tx_fee).  Streams: corpus of witnesses; (C) two candidates in all 7x7 placements "
+                "over the three lists for four coin pairs; (A) whole builds (real fee in the body); (B) the same "
+                "generator with only the collateral step and the body construction executed (fee 0: percent clause "
+                "vacuous there).  non-trivial = distinct scenario")
     ctx.assumptions = [
         "collateral supplied explicitly by the caller (builder.collaterals) is the caller's obligation: its "
         "key-lockedness and number are passed through unchecked and are not judged (counted as skipped)",
@@ -658,9 +661,12 @@ def run(ctx):
     for sc in corpus():
         check_scenario(ctx, sc)
         check_scenario(ctx, {**sc, "mode": "direct"})
+    for sc in systematic():
+        check_scenario(ctx, sc)
+        ctx.count("family:systematic")
     # stream A: whole builds (input selection, fee loop, body bytes with the real fee); ~0.15 s each under the
     # pure-Python CBOR backend.  Every 4th successful one is repeated under 'tight' protocol parameters.
-    for i in range(ctx.budget(240, 2500)):
+    for i in range(ctx.budget(200, 2500)):
         sc = gen_scenario(rng, i, "full")
         r, main = check_scenario(ctx, sc)
         ctx.count("family:" + sc["family"])
@@ -680,6 +686,33 @@ def run(ctx):
         ctx.count("kind:" + sc["kind"])
         if len(ctx.violations) >= 5:
             return
+
+
+def systematic():
+    """stream C: two key-locked candidates `a`, `b`, each in every non-empty subset of (inputs, potential inputs,
+    address UTxOs) — 7 x 7 placements — for three coin pairs around the collateral amount (default parameters:
+    3 261 415); only the collateral step is executed"""
+    amt = oracle_max_fee(S.DEFAULT_PARAMS, 0) * 150 // 100
+    subsets = [[w for w, bit in zip(("in", "pot", "addr"), (1, 2, 4)) if m & bit] for m in range(1, 8)]
+    pairs = [(amt - 1, 10 * ADA), (2 * ADA + 1, 2 * ADA + 1), (amt, amt + plain_min_ada(4310)), (amt // 2 + 1, amt // 2 + 1)]
+    for ca, cb in pairs:
+        for wa in subsets:
+            for wb in subsets:
+                utxos = [{"id": "s", "txid": txid("sys/s"), "ix": 0, "addr": ["script", SPEND], "coin": 10 * ADA, "datum_hash": 7},
+                         {"id": "a", "txid": txid("sys/a"), "ix": 0, "addr": "k0", "coin": ca},
+                         {"id": "b", "txid": txid("sys/b"), "ix": 0, "addr": "k0", "coin": cb}]
+                ops = [{"op": "script_input", "u": "s", "script_in": "witness", "script": SPEND, "datum": 7,
+                        "redeemer": {"data": 1, "units": [1000, 1000000]}}]
+                addr = []
+                for uid, where in (("a", wa), ("b", wb)):
+                    if "in" in where:
+                        ops.append({"op": "add_input", "u": uid})
+                    if "pot" in where:
+                        ops.append({"op": "potential", "u": uid})
+                    if "addr" in where:
+                        addr.append(uid)
+                yield {"mode": "direct", "family": "systematic", "kind": "spend-witness", "params": {}, "utxos": utxos,
+                       "address_utxos": {"k0": addr} if addr else {}, "ops": ops, "build": {"change": "k0"}}
 
 
 def replay(ctx, data):
